@@ -253,8 +253,8 @@ def run_impl_op(w, op):
     if k == 'connect':
         a = op['auth']
         auth = w.auth(a['val'], a['callable'], a.get('coro', False))
-        res = w.connect(list(op['nss']), auth=auth, wait=op['wait'], outcome=op['outcome'],
-                        reacts=op['reacts'])
+        nss = op['nss'][0] if op.get('as_str') and len(op['nss']) == 1 else list(op['nss'])
+        res = w.connect(nss, auth=auth, wait=op['wait'], outcome=op['outcome'], reacts=op['reacts'])
     elif k == 'emit':
         cb = op.get('cb')
         res = w.emit(op['ev'], op['data'], op['ns'],
@@ -586,7 +586,7 @@ class HistoryGen:
         if window == 'disc':
             reacts[-1] += srv_frames(DISCONNECT, None, rng.choice(nss))
         return {'op': 'connect', 'nss': nss, 'auth': auth, 'wait': wait, 'outcome': oc, 'reacts': reacts,
-                'window': window}
+                'window': window, 'as_str': len(nss) == 1 and rng.random() < 0.4}
 
     def op_emit(self, connected_ns=True):
         rng = self.rng
@@ -1331,8 +1331,21 @@ def run_check(ctx, profile, props, nontrivial_rule, is_nontrivial):
     """Common body of C08 / C09.  `props`: clause prefixes this check owns (failures of the other
     property's clauses found on the way are reported as well — the same kernel carries both)."""
     rng = ctx.rng
-    n_cases = ctx.scale(700, 14000)
+    n_cases = ctx.scale(2000, 30000)
     cases, all_recs, oracles = [], [], []
+    # corpus first: hand-written and minimised histories (the known-finding scenarios among them)
+    import glob
+    import os
+    for path in sorted(glob.glob(os.path.join(C.ROOT, 'corpus', ctx.prop, '*.json'))):
+        with open(path) as f:
+            j = json.load(f)
+        for mode in ('threading', 'asyncio'):
+            case = case_from_json(dict(j['case'], mode=mode))
+            recs, orc = exec_case(case)
+            cases.append(case)
+            all_recs.append(recs)
+            oracles.append(orc)
+            ctx.count('corpus')
     for i in range(n_cases):
         mode = 'threading' if i % 2 == 0 else 'asyncio'
         n_ops = rng.randint(6, 26)
